@@ -135,6 +135,12 @@ pub fn all(seed: u64, big_payload: bool) -> Vec<WireType> {
         });
         x
     }));
+    // the genesis WITH its cached hash has its own decoder (the hash must be that of the decoded value)
+    v.push(wire_type("validator::Genesis", {
+        let mut x: Vec<validator::Genesis> = gen::<validator::GenesisRaw>(rng, 3).into_iter().map(|g| g.with_hash()).collect();
+        x.push(util::committee(7, &[3, 1, 2, 1]).genesis);
+        x
+    }));
     v.push(wire_type("validator::View", gen::<validator::v2::View>(rng, 2)));
     v.push(wire_type("validator::Signers", bitvecs().into_iter().take(16).map(validator::v2::Signers).collect()));
     v.push(wire_type("validator::Phase", vec![validator::v2::Phase::Prepare, validator::v2::Phase::Commit, validator::v2::Phase::Timeout]));
